@@ -17,7 +17,9 @@ EXPLANATION = (
     "are built only from constant / input / temporary / capture *views*; (prepack-index) a prepacked weight is looked up "
     "under the node id of the operator input it replaces and subgraph weight caches are indexed in the order of "
     "SubgraphOperator::subgraphs(). A value taken while still referenced, or a decrement over a different dependency set, "
-    "would make a later operator read a mutated or recycled buffer. Equality with a naive evaluation is not decided.")
+    "would make a later operator read a mutated or recycled buffer. (owned-borrowed) an owned input is moved into the "
+    "temporaries only if its node is a value node, and operator outputs never replace a value the caller supplied, so "
+    "owned and borrowed inputs are looked up alike. Equality with a naive evaluation is not decided.")
 ASSUMPTIONS = ["operators honour the Operator contract (C13); kernels are deterministic w.r.t. thread count (not decided)"]
 
 RP = 'rten::graph::Graph::run_plan'
